@@ -184,11 +184,12 @@ theorem setAdd_sat {e : Ty} {x : Payload} (hx : Dec e x) {h : Int} {a : String} 
           · -- already a member
             refine Sat.ok ⟨⟨hl, hd⟩, fun k hk => Or.inr hk, fun m hm => Or.inr hm, fun _ hf => hf⟩
           · rename_i hne
-            refine recur (fun hlaw _ => ⟨?_, by omega⟩)
+            refine recur (fun hlaw hfine => ⟨?_, by omega⟩)
+            obtain ⟨b, hb⟩ := headKey hfine
             cases hyx : equivP e y x with
             | false => rfl
             | true =>
-              have := hlaw.equiv_symm e y x hy hx hyx
+              have := hlaw.equiv_symm e y x i h b a hy hx hb hh hyx
               rw [hequiv] at this
               exact absurd this hne
         | err c => exact Sat.err
